@@ -38,7 +38,8 @@ Definition expand_sub (sub : str) : str :=
   else if str_eqb sub (bs "stop"%bs) then bs "UAG|UAA|UGA|TAG|TAA|TGA"%bs
   else sub.
 
-Inductive item := ILit (c : byte) | IDot | IStar (g : byte).
+(* IStar g: the character class "[gap]*" over the characters of the gap string g *)
+Inductive item := ILit (c : byte) | IDot | IStar (g : str).
 
 (* str.isalpha restricted to ASCII (the domain predicate excludes everything else) *)
 Definition is_alpha (c : byte) : bool :=
@@ -62,7 +63,7 @@ Fixpoint split_on (c : byte) (s : str) : list str :=
 Definition item_of (c : byte) : item := if byte_eqb c cdot then IDot else ILit c.
 (* cane.py:218-222: "[gap]*" is inserted after a letter or '.' that is followed by a letter or '.';
    inside the domain that is exactly between two consecutive characters of one word *)
-Fixpoint compile_word (gap : option byte) (w : str) : list item :=
+Fixpoint compile_word (gap : option str) (w : str) : list item :=
   match w with
   | [] => []
   | [c] => [item_of c]
@@ -71,15 +72,15 @@ Fixpoint compile_word (gap : option byte) (w : str) : list item :=
               | None => item_of c :: compile_word gap r
               end
   end.
-Definition compile (gap : option byte) (sub : str) : list (list item) :=
+Definition compile (gap : option str) (sub : str) : list (list item) :=
   map (compile_word gap) (split_on cbar sub).
 
 (* backtracking matcher: number of characters consumed by the first successful path (CPython sre order:
    a greedy star first tries to take one more character, then falls back to the continuation [k]) *)
-Fixpoint star_aux (g : byte) (k : str -> option nat) (s : str) : option nat :=
+Fixpoint star_aux (g : str) (k : str -> option nat) (s : str) : option nat :=
   match s with
   | x :: s' =>
-      if byte_eqb x g then
+      if has x g then
         match star_aux g k s' with
         | Some n => Some (S n)
         | None => k s
@@ -128,10 +129,10 @@ Fixpoint finditer (alts : list (list item)) (s : str) (pos skip : nat) : list (n
 
 (* ---------------------------------------------------------------- gaps and frames, cane.py:223-226, 234 *)
 (* [i for i, nt in enumerate(str(seq)) if nt in gap if i >= start] *)
-Fixpoint gap_positions (g : byte) (s : str) (pos start : Z) : list Z :=
+Fixpoint gap_positions (g : str) (s : str) (pos start : Z) : list Z :=
   match s with
   | [] => []
-  | x :: r => (if byte_eqb x g && (start <=? pos) then [pos] else []) ++ gap_positions g r (pos + 1) start
+  | x :: r => (if has x g && (start <=? pos) then [pos] else []) ++ gap_positions g r (pos + 1) start
   end.
 (* cane.py:195 "from bisect import bisect_left as bisect"; on an ascending list: the number of leading elements < i *)
 Fixpoint bisect (l : list Z) (i : Z) : Z :=
@@ -180,12 +181,12 @@ Fixpoint first_some {A B} (f : A -> option B) (l : list A) : option B :=
   | x :: r => match f x with Some y => Some y | None => first_some f r end
   end.
 
-Definition fwd_gaps (gap : option byte) (rfn : option (list Z)) (s : str) (start : Z) : option (list Z) :=
+Definition fwd_gaps (gap : option str) (rfn : option (list Z)) (s : str) (start : Z) : option (list Z) :=
   match gap, rfn with
   | Some g, Some _ => Some (gap_positions g s 0 start)       (* cane.py:223-226 *)
   | _, _ => None
   end.
-Definition bwd_gaps (gap : option byte) (r : str) (start : Z) : option (list Z) :=
+Definition bwd_gaps (gap : option str) (r : str) (start : Z) : option (list Z) :=
   option_map (fun g => gap_positions g r 0 start) gap.       (* cane.py:244-245 *)
 
 Definition runs_fwd (rfn : option (list Z)) : bool :=
@@ -193,16 +194,16 @@ Definition runs_fwd (rfn : option (list Z)) : bool :=
 Definition runs_bwd (rfn : option (list Z)) : bool :=
   match rfn with None => false | Some l => has_bwd l end.    (* cane.py:242 *)
 
-Definition fwd_list (alts : list (list item)) (s : str) (start : Z) (gap : option byte) (rfn : option (list Z)) : list bm :=
+Definition fwd_list (alts : list (list item)) (s : str) (start : Z) (gap : option str) (rfn : option (list Z)) : list bm :=
   if runs_fwd rfn then filter_map (fwd_one s start (fwd_gaps gap rfn s start) rfn) (raw_pass alts s start) else [].
-Definition bwd_list (alts : list (list item)) (s : str) (start : Z) (gap : option byte) (rfn : option (list Z)) : list bm :=
+Definition bwd_list (alts : list (list item)) (s : str) (start : Z) (gap : option str) (rfn : option (list Z)) : list bm :=
   match rfn with
   | Some l => if has_bwd l then let r := rc s in filter_map (bwd_one r start (bwd_gaps gap r start) l) (raw_pass alts r start) else []
   | None => []
   end.
 
 (* match(..., matchall=True); None = AssertionError *)
-Definition matchall (s sub : str) (rf : rfarg) (start : Z) (gap : option byte) : option (list bm) :=
+Definition matchall (s sub : str) (rf : rfarg) (start : Z) (gap : option str) : option (list bm) :=
   match norm_rf rf with
   | None => None
   | Some rfn =>
@@ -211,7 +212,7 @@ Definition matchall (s sub : str) (rf : rfarg) (start : Z) (gap : option byte) :
   end.
 
 (* match(..., matchall=False): early return of the first hit; None = AssertionError, Some None = returns None *)
-Definition match_first (s sub : str) (rf : rfarg) (start : Z) (gap : option byte) : option (option bm) :=
+Definition match_first (s sub : str) (rf : rfarg) (start : Z) (gap : option str) : option (option bm) :=
   match norm_rf rf with
   | None => None
   | Some rfn =>
@@ -228,7 +229,7 @@ Definition match_first (s sub : str) (rf : rfarg) (start : Z) (gap : option byte
   end.
 
 (* BioBasket.matchall: extend per sequence; BioBasket.match: append per sequence (seq.py:1019-1038) *)
-Fixpoint basket_matchall (seqs : list str) (sub : str) (rf : rfarg) (start : Z) (gap : option byte) : option (list bm) :=
+Fixpoint basket_matchall (seqs : list str) (sub : str) (rf : rfarg) (start : Z) (gap : option str) : option (list bm) :=
   match seqs with
   | [] => Some []
   | s :: r =>
@@ -237,7 +238,7 @@ Fixpoint basket_matchall (seqs : list str) (sub : str) (rf : rfarg) (start : Z) 
       | Some l => option_map (app l) (basket_matchall r sub rf start gap)
       end
   end.
-Fixpoint basket_match (seqs : list str) (sub : str) (rf : rfarg) (start : Z) (gap : option byte) : option (list (option bm)) :=
+Fixpoint basket_match (seqs : list str) (sub : str) (rf : rfarg) (start : Z) (gap : option str) : option (list (option bm)) :=
   match seqs with
   | [] => Some []
   | s :: r =>
@@ -256,11 +257,20 @@ Definition nonempty (w : str) : bool := match w with [] => false | _ => true end
 Definition wf_sub (sub : str) : bool :=
   let e := expand_sub sub in
   forallb (fun c => wordch c || byte_eqb c cbar) e && forallb nonempty (split_on cbar e).
-Definition wf_gap (gap : option byte) : bool :=
-  match gap with None => true | Some g => byte_eqb g "-"%byte end.
+(* gap: None or a non-empty string over the gap symbols '-', '.', '~' in which '-' is the first or the last character, so that
+   "[gap]*" is the class of exactly these characters (no range, no '^', ']' or backslash) and "nt in gap" is membership *)
+Definition gap_char_ok (c : byte) : bool := has c (bs "-.~"%bs).
+Definition wf_gap (gap : option str) : bool :=
+  match gap with
+  | None => true
+  | Some g => match g with
+              | [] => false
+              | _ :: r => forallb gap_char_ok g && negb (has "-"%byte (removelast r))
+              end
+  end.
 Definition wf_rf (rf : rfarg) : bool := match norm_rf rf with Some _ => true | None => false end.
 
-Definition wf_C13 (seqs : list str) (sub : str) (rf : rfarg) (start : Z) (gap : option byte) : bool :=
+Definition wf_C13 (seqs : list str) (sub : str) (rf : rfarg) (start : Z) (gap : option str) : bool :=
   forallb wf_seq seqs && wf_sub sub && wf_rf rf && (0 <=? start) && wf_gap gap.
 
 
@@ -270,14 +280,14 @@ Inductive irel : list item -> str -> Prop :=
 | irel_nil : irel [] []
 | irel_lit c r t : irel r t -> irel (ILit c :: r) (c :: t)
 | irel_dot x r t : x <> cnl -> irel r t -> irel (IDot :: r) (x :: t)
-| irel_star g k r t : irel r t -> irel (IStar g :: r) (repeat g k ++ t).
+| irel_star g gs r t : forallb (fun x => has x g) gs = true -> irel r t -> irel (IStar g :: r) (gs ++ t).
 
-Definition is_gap (gap : option byte) (c : byte) : bool :=
-  match gap with Some g => byte_eqb c g | None => false end.
+Definition is_gap (gap : option str) (c : byte) : bool :=
+  match gap with Some g => has c g | None => false end.
 (* number of residues (non-gap characters) of a string *)
-Definition residues (gap : option byte) (t : str) : Z :=
+Definition residues (gap : option str) (t : str) : Z :=
   Z.of_nat (length (filter (fun c => negb (is_gap gap c)) t)).
-Definition degap (g : byte) (t : str) : str := filter (fun c => negb (byte_eqb c g)) t.
+Definition degap (g : str) (t : str) : str := filter (fun c => negb (has c g)) t.
 (* spans are ascending and disjoint *)
 Fixpoint chain (lo : nat) (l : list (nat * nat)) : Prop :=
   match l with
@@ -290,7 +300,7 @@ Definition cmap (u : bool) (c : byte) : byte :=
   else trans1 c.
 Definition words (sub : str) : list str := split_on cbar (expand_sub sub).
 (* the string t is an occurrence of one of the words of the pattern (gap characters tolerated between its letters when gap is set) *)
-Definition word_match (gap : option byte) (sub t : str) : Prop :=
+Definition word_match (gap : option str) (sub t : str) : Prop :=
   exists w, In w (words sub) /\ irel (compile_word gap w) t.
 
 (* span of a reported match as columns; for backward matches the columns on the reverse complement *)
@@ -300,7 +310,7 @@ Definition rc_span_of (L : nat) (m : bm) : nat * nat := ((L - Z.to_nat (bm_e m))
 Definition cmatch (c x : byte) : bool := if byte_eqb c cdot then negb (byte_eqb x cnl) else byte_eqb x c.
 
 (* what the property says about one reported forward match *)
-Definition fwd_spec (s sub : str) (rfn : option (list Z)) (start : Z) (gap : option byte) (m : bm) : Prop :=
+Definition fwd_spec (s sub : str) (rfn : option (list Z)) (start : Z) (gap : option str) (m : bm) : Prop :=
   exists b e : nat, (b < e <= length s)%nat /\ start <= Z.of_nat b /\
     bm_b m = Z.of_nat b /\ bm_e m = Z.of_nat e /\ bm_group m = slice b e s /\ word_match gap sub (bm_group m) /\
     match rfn with
@@ -309,7 +319,7 @@ Definition fwd_spec (s sub : str) (rfn : option (list Z)) (start : Z) (gap : opt
         t = residues gap (slice (Z.to_nat start) b s) mod 3
     end.
 (* ... and about one reported backward match; b, e are columns of the reverse complement, the span is mirrored *)
-Definition bwd_spec (s sub : str) (l : list Z) (start : Z) (gap : option byte) (m : bm) : Prop :=
+Definition bwd_spec (s sub : str) (l : list Z) (start : Z) (gap : option str) (m : bm) : Prop :=
   let r := rc s in
   let L := length s in
   exists b e : nat, (b < e <= L)%nat /\ start <= Z.of_nat b /\
@@ -325,7 +335,7 @@ Definition show_bm (m : bm) : val :=
 Definition assertion_error : val := VE (bs "AssertionError"%bs).
 
 (* op 0: BioSeq.matchall, 1: BioSeq.match, 2: BioBasket.matchall, 3: BioBasket.match *)
-Definition run_C13 (op : N) (seqs : list str) (sub : str) (rf : rfarg) (start : Z) (gap : option byte) : val :=
+Definition run_C13 (op : N) (seqs : list str) (sub : str) (rf : rfarg) (start : Z) (gap : option str) : val :=
   let s := hd [] seqs in
   let res :=
     match op with
